@@ -297,14 +297,20 @@ def run(chk: core.Check, replay=None) -> None:
     core.use_repo()
     thorough = chk.tier == "thorough"
     for mi in ((2, 4) if thorough else (3,)):
-        cfg, defs = core.consts(dict(MaxIter=mi, StoreRule='"after"'))
+        cfg, defs = core.consts(dict(MaxIter=mi, StoreRule='"after"', RestartRule='"once"'))
         r = chk.tlc(core.run_tlc("ZeroFinder", cfg + "SPECIFICATION Spec\nINVARIANT C02_ReturnedMeetsAccuracy\nINVARIANT C02_ErrorMeansNotMet\n"
-                                 "INVARIANT C02_IterationCap\nINVARIANT C02_FailureKeepsZero\nPROPERTY C02_StoreOnlyAfterReturn\n",
+                                 "INVARIANT C02_IterationCap\nINVARIANT C02_FailureKeepsZero\nPROPERTY C02_StoreOnlyAfterReturn\n"
+                                 "INVARIANT C02_AtMostOneRestart\nINVARIANT C02_RangeErrorOnlyAfterTheSightLineWasTried\n",
                                  defs=defs, coverage=True), f"ZeroFinder MaxIter={mi}")
         for a in ("Begin", "Trial", "Store"):
             if not r.coverage.get(f"ZeroFinder.{a}"):
                 raise core.MachineryError(f"ZeroFinder.{a} never taken")
-    cfg, defs = core.consts(dict(MaxIter=2, StoreRule='"before"'))
+    cfg, defs = core.consts(dict(MaxIter=2, StoreRule='"after"', RestartRule='"never"'))
+    r3 = core.run_tlc("ZeroFinder", cfg + "SPECIFICATION Spec\nINVARIANT C02_RangeErrorOnlyAfterTheSightLineWasTried\n", defs=defs)
+    chk.tlc_runs.append({"what": "ZeroFinder RestartRule=never (the tree before c38d3cc; expected counterexample)", "violated": r3.violated})
+    if r3.ok:
+        raise core.MachineryError("RestartRule=never expected to be refuted")
+    cfg, defs = core.consts(dict(MaxIter=2, StoreRule='"before"', RestartRule='"once"'))
     r2 = core.run_tlc("ZeroFinder", cfg + "SPECIFICATION Spec\nINVARIANT C02_FailureKeepsZero\n", defs=defs)
     chk.tlc_runs.append({"what": "ZeroFinder StoreRule=before (expected counterexample)", "violated": r2.violated})
     if r2.ok:
